@@ -14,6 +14,7 @@ mod diff_props;
 mod fileset_props;
 mod git_props;
 mod matcher_props;
+mod idx_props;
 mod merge_props;
 mod path_props;
 mod refs_props;
@@ -37,6 +38,7 @@ fn main() {
             "c04" => diff_props::c04(&case),
             "c05" => conflict_props::c05(&case),
             "c12" => refs_props::c12(&case),
+            "c20" => idx_props::c20(&case),
             "c26" => wc_props::c26(&case),
             "c30" => matcher_props::c30(&case),
             "c31" => fileset_props::c31(&case),
